@@ -2,6 +2,7 @@ package main
 
 import (
 	"fmt"
+	"math"
 	"strings"
 
 	"github.com/tidwall/geojson"
@@ -157,6 +158,25 @@ func invalidSeeds() []string {
 	s = append(s, `{"type":"Polygon","coordinates":[[[0,0],[4,0],[4,4],[0,4],[0,0]],[[1,1],[2,1],[2,2],[1,1]]]}`)
 	s = append(s, `{"type":"Polygon","coordinates":[[[0,0],[0,0],[0,0],[0,0],[0,0]]]}`)
 	s = append(s, `{"type":"Point","coordinates":[1,2,3]}`, `{"type":"Point","coordinates":[1,2],"id":1}`)
+	// geometries large enough for the segment index to have structure (node
+	// splits at 17 / 33 segments), placed around the probe objects, with one
+	// edge much longer than the others
+	big := func(n int, cx, cy, rx, ry float64) string {
+		var ps []string
+		ps = append(ps, docgen.Pos(cx, cy-ry))
+		for i := 0; i < n; i++ {
+			a := math.Pi * (float64(i) + 0.5) / float64(n)
+			x, y := cx-rx*math.Sin(a), cy-ry*math.Cos(a)
+			ps = append(ps, docgen.Pos(math.Round(x*64)/64, math.Round(y*64)/64))
+		}
+		ps = append(ps, docgen.Pos(cx, cy+ry), docgen.Pos(cx, cy-ry))
+		return "[" + strings.Join(ps, ",") + "]"
+	}
+	s = append(s, docgen.Obj("Polygon", `"coordinates":[`+big(17, 3, 2, 4, 3)+`]`))
+	s = append(s, docgen.Obj("Polygon", `"coordinates":[`+big(40, 3, 2, 4, 3)+`,[[0.5,1],[1.5,1],[1.5,3],[0.5,1]]]`))
+	s = append(s, docgen.Obj("LineString", `"coordinates":`+big(70, 4, 4, 5, 5)))
+	s = append(s, docgen.Obj("MultiPolygon", `"coordinates":[[`+big(20, 3, 2, 4, 3)+`],[`+big(33, 10, 2, 2, 3)+`]]`))
+	s = append(s, docgen.Obj("Feature", `"geometry":`+docgen.Obj("Polygon", `"coordinates":[`+big(24, 1, 2, 3, 4)+`]`), `"id":"big"`))
 	s = append(s, `{"type":"GeometryCollection","geometries":[{"type":"Point","coordinates":[1,2]},{"type":"Polygon","coordinates":[[[0,0],[4,0],[4,4],[0,4],[0,0]]]},{"type":"Feature","geometry":{"type":"Point","coordinates":[1,2]},"properties":{"type":"Circle","radius":5000}}]}`)
 	return s
 }
